@@ -98,7 +98,10 @@ def kxData (contents dtype : String) (tb : String) : Term :=
     ("#id", "obj0")] []
 def kxAdd (a b : Term) : Term :=
   .node "IndexLambda" [("expr", "_in0+_in1"), ("dtype", "f8")] [("bindings", [a, b])]
-def kxSem : Tbl := tblOf PtGen.semanticFieldsKey
+/-- the C18 semantic table of two kinds (fixed, independent of today's extraction) -/
+def kxSem : Tbl := tblOf [
+  ("DataWrapper", ["axes", "tags", "data.contents", "data.dtype", "data.shape", "shape"]),
+  ("IndexLambda", ["expr", "dtype", "bindings"])]
 
 example : TblSub kxSem kxSem := fun _ _ h => h
 example : SemEq kxSem (kxAdd (kxData "00" "i8" "t1") (kxData "00" "i8" "t1"))
